@@ -467,8 +467,11 @@ class Interp:
             # a contract stated in ANOTHER sidecar module speaks about arguments of its own shapes only:
             # for arguments of other shapes it says nothing and the real body is interpreted instead
             cur = getattr(self.reg, 'current_module', None)
-            policy = getattr(cur, 'foreign_contracts', 'apply')
-            if getattr(c, 'module', None) is cur or policy == 'apply' or \
+            policy = getattr(cur, 'foreign_contracts', 'imports')
+            owner_mod = getattr(c, 'module', None)
+            if owner_mod is cur or cur is None or policy == 'apply' or \
+                    (policy == 'imports' and getattr(owner_mod, 'prop', None) in getattr(cur, 'uses', ())) or \
+                    (policy == 'imports' and getattr(owner_mod, 'prop', None) == getattr(cur, 'prop', None)) or \
                     (policy == 'fit' and self.reg.args_fit_contract(self, c, func, args, kwargs)):
                 return self.reg.apply_contract(self, c, func, args, kwargs)
         m = self.reg.model_for(func)
